@@ -16,6 +16,7 @@ var errSentinel = errors.New("verif: injected writer failure")
 type faultWriter struct {
 	limit      int
 	short      bool // fail with io.ErrShortWrite instead of the sentinel
+	full       bool // the failing Write accepts its whole chunk and returns (len(p), err)
 	got        []byte
 	failed     bool
 	afterCalls int // Write calls (with data) after the first failure
@@ -35,6 +36,9 @@ func (w *faultWriter) Write(p []byte) (int, error) {
 	if len(p) <= room {
 		w.got = append(w.got, p...)
 		return len(p), nil
+	}
+	if w.full {
+		room = len(p)
 	}
 	w.got = append(w.got, p[:room]...)
 	w.failed = true
@@ -64,7 +68,7 @@ func init() {
 		ID:    "C19",
 		Level: "fault_enumeration",
 		Rule: "every module of the corpus (atoms, repo testdata, llvm-stress programs in thorough) is written with WriteTo to a writer that fails after exactly k accepted bytes, " +
-			"for every k in [0,len] (all offsets when len<=6000, else 400 PRNG offsets plus boundaries), once with a sentinel error and once with a short write; " +
+			"for every k in [0,len] (all offsets when len<=6000, else 400 PRNG offsets plus boundaries), once with a sentinel error, once with io.ErrShortWrite, and once with a writer whose failing call accepts its whole chunk and returns (len(p), err); the corpus includes a synthetic module with a function body of more than 64 KiB; " +
 			"a case is (module, k, failure kind); it is non-trivial when 0<k<len, i.e. the failure hits in the middle of the output; distinct = distinct (module digest, k, kind)",
 		Gen:           genC19,
 		MinNontrivial: 1000,
@@ -78,6 +82,15 @@ func genC19(ctx *fw.Ctx) []fw.Case {
 	srcs := baseSources()
 	srcs = append(srcs, corpus.StressSources(ctx.Rand("stress"), ctx.Pick(20, 300), 20, 200)...)
 	srcs = append(srcs, mgenSources(ctx, ctx.Pick(60, 1500))...)
+	srcs = append(srcs, corpus.Source{ID: "synthetic/big-function", Text: func() (string, error) {
+		var sb strings.Builder
+		sb.WriteString("@g = global i32 0\ndefine i32 @small(i32 %x) {\n  ret i32 %x\n}\ndefine i32 @big(i32 %x) {\nentry:\n  %v0 = add i32 %x, 1\n")
+		for i := 1; i < 2600; i++ {
+			fmt.Fprintf(&sb, "  %%v%d = add nuw nsw i32 %%v%d, %d\n", i, i-1, i)
+		}
+		sb.WriteString("  ret i32 %v2599\n}\ndefine void @after() {\n  ret void\n}\n!named = !{!0}\n!0 = !{!\"tail\"}\n")
+		return sb.String(), nil
+	}})
 	var cases []fw.Case
 	for _, s := range srcs {
 		s := s
@@ -163,13 +176,10 @@ func runC19(r *fw.Rec, s corpus.Source) {
 		}
 	}
 	nontriv := 0
-	for _, short := range []bool{false, true} {
-		kind := "sentinel"
-		if short {
-			kind = "shortwrite"
-		}
+	for _, kind := range []string{"sentinel", "shortwrite", "fullcount"} {
+		short := kind == "shortwrite"
 		for _, k := range offs {
-			w := &faultWriter{limit: k, short: short}
+			w := &faultWriter{limit: k, short: short, full: kind == "fullcount"}
 			var n int64
 			var werr error
 			if p, msg, _ := fw.Guard(func() { n, werr = m.WriteTo(w) }); p {
@@ -184,8 +194,8 @@ func runC19(r *fw.Rec, s corpus.Source) {
 			switch {
 			case n != int64(len(w.got)):
 				bad = fmt.Sprintf("returned n=%d but the writer accepted %d bytes", n, len(w.got))
-			case string(w.got) != T[:min(k, L)]:
-				bad = "bytes delivered are not the first k bytes of String()"
+			case len(w.got) > L || string(w.got) != T[:len(w.got)] || (kind != "fullcount" && len(w.got) != min(k, L)) || len(w.got) < min(k, L):
+				bad = "bytes delivered are not the prefix of String() the writer accepted"
 			case k < L && werr != w.firstErr:
 				bad = fmt.Sprintf("returned err=%v, want the writer's first error %v", werr, w.firstErr)
 			case k < L && !w.failed:
@@ -206,9 +216,9 @@ func runC19(r *fw.Rec, s corpus.Source) {
 	}
 	r.NontrivialN("c19/"+dig, nontriv*1)
 	r.Tally("modules", "checked")
-	r.TallyN("offsets", "checked", 2*len(offs))
+	r.TallyN("offsets", "checked", 3*len(offs))
 	if L <= 6000 {
 		r.Tally("modules", "all_offsets_enumerated")
 	}
-	r.Sample(map[string]interface{}{"module": s.ID, "len": L, "offsets_tried": len(offs), "kinds": []string{"sentinel", "shortwrite"}, "head": fw.Trunc(T, 120)})
+	r.Sample(map[string]interface{}{"module": s.ID, "len": L, "offsets_tried": len(offs), "kinds": []string{"sentinel", "shortwrite", "fullcount"}, "head": fw.Trunc(T, 120)})
 }
